@@ -503,6 +503,16 @@ func cronsim(t *testing.T, tp *simrt.Tape, opts RunOpts) *Outcome {
 			dl.to = ex
 		}
 	}
+	// a bind that failed (the address had just been taken by a racing agent) is not a listening socket
+	if cw != nil && cw.w != nil {
+		okBind, _ := cw.w.Data["sock_bound"].(map[int]bool)
+		for pid := range bindAt {
+			if !okBind[pid] {
+				delete(bindAt, pid)
+				delete(unbindAt, pid)
+			}
+		}
+	}
 	chk := &cronCheck{out: out, sc: sc, tl: tl, cw: cw, spawnAt: spawnAt, exitAt: exitAt, bindAt: bindAt, unbindAt: unbindAt, endAt: endAt}
 	chk.run()
 	out.NonTrivial = out.Probes["evaluation_required_start"] > 0
@@ -565,6 +575,11 @@ func (c *cronCheck) evaluations(dl *daemonLife) []evaluation {
 	if startupFrozen {
 		// it may also have read the clock just before it froze
 		evs = append(evs, evaluation{minute: dl.from.Truncate(time.Minute), a: dl.from, b: from.Add(cronSlack), life: dl, kind: "startup", fuzzy: true})
+		// ... or it had finished starting up after all: then the ticks of the minutes that went by while it
+		// was frozen are delivered in a bunch when it thaws, each evaluating its own minute
+		for m := dl.from.Truncate(time.Minute).Add(time.Minute); m.Before(m0); m = m.Add(time.Minute) {
+			evs = append(evs, evaluation{minute: m, a: from, b: from.Add(cronSlack), life: dl, kind: "after-freeze", frozen: dl.from, fuzzy: true})
+		}
 	}
 	evs = append(evs, su)
 	for m := m0.Add(time.Minute); m.Before(dl.to); m = m.Add(time.Minute) {
@@ -707,7 +722,7 @@ func (c *cronCheck) run() {
 					}
 					// processes of this DAG
 					idle, running := true, false
-					startedInOrAfter, maybeStartedInOrAfter := false, false
+					startedInOrAfter, maybeStartedInOrAfter, shadowed := false, false, false
 					for _, cp := range agents {
 						sp, ex := c.spawnAt[cp.proc.Pid], end(cp)
 						// a run counts as in progress from its spawn until it has shut its status socket (what the
@@ -742,6 +757,14 @@ func (c *cronCheck) run() {
 							maybeStartedInOrAfter = true
 							if bt, ok := c.bindAt[cp.proc.Pid]; ok && !sp.Before(e.minute) && bt.Before(e.a.Add(-time.Second)) {
 								startedInOrAfter = true // it recorded its start (before it bound its socket) well before the evaluation
+								// ... unless a second agent of the DAG raced it through the probe..bind window (C16's
+								// known window: e.g. a start and a restart entry of the same minute), lost, and left a
+								// record of its own: that record can be the newest one and has no start time
+								for _, o := range agents {
+									if _, bound := c.bindAt[o.proc.Pid]; o != cp && !bound && c.spawnAt[o.proc.Pid].Before(bt) && end(o).After(sp) {
+										shadowed = true
+									}
+								}
 							}
 						}
 					}
@@ -764,6 +787,9 @@ func (c *cronCheck) run() {
 						forbidden = "already-running"
 					case startedInOrAfter:
 						forbidden = "already-started-for-this-minute"
+						if shadowed {
+							forbidden += "/shadowed-by-refused-twin"
+						}
 					}
 					switch {
 					case forbidden != "":
